@@ -298,11 +298,20 @@ Qed.
 Lemma offset_grid_sweep : offset_grid_ok = true.
 Proof. vm_cast_no_check (eq_refl true). Qed.
 
+Lemma forallb_range : forall (f : Z -> bool) p lo, forallb f (z_range lo p) = true ->
+  forall z, lo <= z < lo + Zpos p -> f z = true.
+Proof.
+  intros f p lo H z Hz. unfold z_range in H. rewrite forallb_forall in H. apply H.
+  apply z_range_pos_In. exact Hz.
+Qed.
+
 Lemma offset_case_sweep : forall off neg, -32768 <= off <= 32767 -> offset_case_ok off neg = true.
 Proof.
-  intros off neg R. pose proof offset_grid_sweep as G. unfold offset_grid_ok in G.
-  rewrite forallb_forall in G. specialize (G off (z_range_pos_In 65536%positive (-32768) off ltac:(lia))).
-  apply andb_true_iff in G. destruct G as [G1 G2]. destruct neg; assumption.
+  intros off neg R.
+  assert (Hr : -32768 <= off < -32768 + Zpos 65536) by lia.
+  pose proof (forallb_range (fun off => offset_case_ok off false && offset_case_ok off true)
+                65536%positive (-32768) offset_grid_sweep off Hr) as G.
+  cbv beta in G. apply andb_true_iff in G. destruct G as [G1 G2]. destruct neg; assumption.
 Qed.
 
 Theorem offset_roundtrip_sweep : forall t off neg, -32768 <= off <= 32767 ->
